@@ -32,6 +32,9 @@ VM_ZEROLEN = vm("zerolen", 3200, 64000)
 WASM = chain("wasm", 16, 160, ops=4)
 # a contract returning BLOCKHASH(NUMBER - k) called on the real chain at several heights and again after an export / re-import (C16, C20)
 BLOCKHASH = chain("blockhash", 16, 160, ops=4)
+# the oracle's task parameters changed by the real handler of a parameter-change proposal (epsilons around zero), then the real
+# oracle.EndBlocker at the closing block of a task whose responses make that epsilon the whole divisor (C08)
+ORACLEPARAMS = chain("oracleparams", 12, 120, ops=40, tops=80)
 VM_ASSUME = ["outside the Lean interpreter model (cases reaching them are skipped by the comparison, monitors still run): native/precompile addresses (<= 0xff), any use of an address destroyed earlier in the same transaction, call / constructor nesting deeper than 8",
              "CREATE and CREATE2 are inside the model; the address CREATE derives (SHA-256 of creator, transaction nonce and the CVM's sequence counter; no SHA-256 in the Lean base) is an input of the model: the harness reconstructs the table (creator, sequence number) -> address from the interpreter's call events, the driver checks that it is a one-to-one function, and a model run that asks for an entry the interpreter did not derive is reported as a difference; the CREATE2 address (Keccak-256) is computed by the model",
              "the VM engine's state gives every account the CreateContract permission (Burrow's default global permissions) and has no contract metadata (InitChildCode's code-hash whitelist is empty); the transaction nonce option of the CVM is empty",
@@ -68,10 +71,10 @@ PROPS = {
     "C07": dict(SHIELD, lean=["Shentu.Props.C07", "Shentu.Props.ShieldTie"]),
     "C08": {
         "lean": ["Shentu.Props.C08", "Shentu.Props.C04b", "Shentu.Props.C04c", "Shentu.Props.C04r", "Shentu.Props.C01m"],
-        "engines": [chain("shield", 96, 960, ops=240, tops=400), chain("oracle", 48, 480, ops=120), chain("gov", 48, 480, ops=120), chain("staking", 32, 320, ops=150), chain("bankvm", 32, 320, ops=100), MINT, REIMB],
+        "engines": [chain("shield", 96, 960, ops=240, tops=400), chain("oracle", 48, 480, ops=120), chain("gov", 48, 480, ops=120), chain("staking", 32, 320, ops=150), chain("bankvm", 32, 320, ops=100), MINT, REIMB, ORACLEPARAMS],
         "trusted": SDK_TRUST + ["a panic inside BeginBlock/EndBlock of the real application is caught by the harness (recover) and reported with its site; the begin/end-blockers of SDK modules (distribution, mint, slashing, staking) run for real in every history but are not modelled",
                                 "in the models a Go panic is the error value built by `panicE`; the theorems show that the modelled block-level functions return no error on states satisfying invariants that are proved to be preserved by every operation"],
-        "assumptions": ["oracle parameters epsilon1, epsilon2 > 0 (a zero epsilon divides by zero for a score of 0 or 100; parameter validation does not exclude it)", "shield protection period > 0 (validated by the module)",
+        "assumptions": ["oracle parameters epsilon1, epsilon2 > 0 (the hypothesis EndInv of C08.oracle_endBlock_never_halts; the oracle histories keep the parameters constant): discharged against the code by the engine 'oracleparams' — the real parameter-change handler must refuse every non-positive epsilon, and under every value it accepts the real end-blocker is run on the task that makes the epsilon the whole divisor (repaired in /repo: before the repair zero was accepted and the end-blocker divided by zero)", "shield protection period > 0 (validated by the module)",
                         "claim payouts, at the staking level: the payout function panics ('exact pay out was not made from unbondings') exactly when the provider's bonded and unbonding stake does not cover purchased + payout, and otherwise succeeds (C04b.makePayout_exact, makePayout_uncovered_panics)", "claim payouts: the split of the loss over the providers pays in full (C04r.split_pays_in_full_with_two_spare_units) when every provider's share of the unused collateral is at least two units; it can fall short otherwise (C04r.split_short_at_full_utilisation, recorded under C04: the handler runs under recover, the proposal fails, the chain goes on)", "claim payouts: totality of the payout is proved under a feasibility condition on the provider snapshot that is not an invariant (collateral can leave while a claim is open when blocks are far apart); since the repair a47d31f a payout that panics fails the proposal instead of halting the chain, which is what the histories exercise",
                         "block-time gaps up to ten protection periods, parameters as drawn by the profile generators",
                         "mint: the split of the block provision cannot fail when the two ratios (community pool / supply, stake-for-shield pool / supply) are non-negative and add up to at most one (C01m.split_ok_of_ratios, and split_panics_iff for the converse); both pools are coins held inside the supply, in different module accounts"],
